@@ -459,8 +459,8 @@ class Gen:
             return s
         if s[0] == "simult":
             return ("simult", list(s[1]), [("poly", var(x)) for x in reversed(s[1])])
-        if s[0] == "if":
-            return ("if", [(self.fin_cond(), [self.variant(t) for t in br]) for _, br in s[1]], None)
+        # if-statements (bounded counters!) are kept as they are: changing their condition could make a
+        # declared FiniteRange type false, and programs with false declared types are outside every property
         return s
 
     def add_multi_assign(self, body):
@@ -547,6 +547,28 @@ def instantiate_params(rng, meta, prog):
         else:
             vals[name] = F(rng.randint(-20, 20), rng.choice([3, 7, 11])) or F(5, 7)
     inits = {}
+    declared = declared_values(prog)
     for v in program_variables(prog):
-        inits[v] = F(rng.randint(-15, 15), rng.choice([2, 3, 7])) or F(3, 7)
+        if v in declared and declared[v]:
+            inits[v] = rng.choice(declared[v])
+        else:
+            # stand-in for the symbolic initial value <v>0: never an integer / half-integer, so that it cannot be
+            # confused with a designed program constant
+            inits[v] = F(7 * rng.randint(-3, 3) + rng.choice([1, 2, 3, 4, 5, 6]), 7) + F(rng.choice([0, 1, 2]), 11)
     return vals, inits
+
+
+def declared_values(prog):
+    """var -> list of Fractions for user-declared Finite / FiniteRange types with numeric parameters"""
+    from ..lang.ast import fold
+    out = {}
+    for v, tname, args in prog.typedefs:
+        vals = [fold(a) for a in args]
+        if any(a[0] != "num" for a in vals):
+            continue
+        nums = [a[1] for a in vals]
+        if tname == "FiniteRange" and len(nums) == 2 and all(x.denominator == 1 for x in nums):
+            out[v] = [F(i) for i in range(int(nums[0]), int(nums[1]) + 1)]
+        elif tname == "Finite":
+            out[v] = nums
+    return out
